@@ -54,7 +54,7 @@ CHECKS = {
          "Pairs in which either program is not accepted are skipped and counted.", "5/C15"),
  "C16": ("exploration", "property-based testing with single-fault mutation operators decided by the project model; accept/reject oracle on in-process compiles",
          "Valid programs of the core/client-graph tiers must compile without diagnostics; mutants violating exactly one rule of the statement (10 operators) at a model-chosen location must be rejected with a diagnostic. 40k programs quick, 600k thorough.",
-         "The 'generated language subset' is what G-PROJECT emits in those tiers (written into the evidence); list-typed variables are excluded by construction (recorded finding); compiler crashes are C08's business.", "5/C16"),
+         "The 'generated language subset' is what G-PROJECT emits in those tiers (written into the evidence); list-typed variables are generated; the one shape still rejected (a nullable list passed to a list argument) is a recorded finding keyed by its diagnostic text; compiler crashes are C08's business.", "5/C16"),
  "C17": ("exploration", "stateful property-based testing over compile histories (in-process sessions, fresh states and fresh CLI processes), byte-exact snapshot oracle",
          "Histories: P0 compiled, then 1-5 further compiles with at least one invalid program (ten error kinds), in batch mode and as watch-style recompiles, from empty / missing / junk initial directories; the file map of the artifact directory before and after every compile that reported diagnostics must be identical. 480 histories quick, 16000 thorough.",
          "Write-phase I/O errors are outside C17's domain (C18/C19); a missing schema makes create_config panic before anything is written (labelled only); mtime-only rewrites are labelled, not failed.", "5/C17"),
